@@ -156,7 +156,7 @@ func checkPreimage(c *Ctx, rule string, table []preimageRow) {
 			}
 			u := newFlowUnit(p, fn)
 			u.seedFieldLoads(fn.Params[row.param])
-			u.seedParam(fn.Params[row.param], "$"+fn.Params[row.param].Name())
+			u.seedParam(fn.Params[row.param], "$"+baseParamName(fn.Params[row.param]))
 			u.run()
 			units = append(units, u)
 		}
